@@ -7,8 +7,8 @@
 (* trace (one trace = calls on one directory of one freshly built layer).    *)
 EXTENDS Node, Json, TLCExt
 
-VARIABLES l, hls, lks, seen, dg, sz, fe, base
-mvars == <<vars, l, hls, lks, seen, dg, sz, fe, base>>
+VARIABLES l, hls, lks, seen, dg, sz, fe, rep, base
+mvars == <<vars, l, hls, lks, seen, dg, sz, fe, rep, base>>
 
 TraceLog == ndJsonDeserialize("trace.ndjson")
 Ev == TraceLog[l]
@@ -19,25 +19,26 @@ ListOf(e) == {[name |-> x.name, kind |-> x.kind, ino |-> x.ino] : x \in {y \in S
 InoRecs(e) ==
     IF e.ev = "Readdir" THEN {[name |-> x.name, hi |-> x.inohi, lo |-> x.ino] : x \in {y \in SeqToSet(e.list) : NotDot(y)}}
     ELSE IF e.ev \in {"Lookup", "GetattrChild"} /\ e.errno = "OK" THEN {[name |-> e.n, hi |-> e.inohi, lo |-> e.ino]}
-    ELSE IF e.ev = "StatRead" /\ e.errno = "OK"
+    ELSE IF e.ev = "StatGetattr" /\ e.errno = "OK" THEN {[name |-> StateDir \o "/stat", hi |-> e.inohi, lo |-> e.fileino]}
+    ELSE IF e.ev = "StatLookup" /\ e.errno = "OK"
          THEN {[name |-> StateDir, hi |-> e.inohi, lo |-> e.dirino], [name |-> StateDir \o "/stat", hi |-> e.inohi, lo |-> e.fileino]}
     ELSE {}
 
 MonInit ==
     /\ l = 1
     /\ isRoot = TRUE /\ mode = "trusted" /\ src = {}
-    /\ cached = FALSE /\ ents = {} /\ mem = Empty /\ fetched = 0 /\ reported = FALSE
+    /\ cached = FALSE /\ ents = {} /\ mem = Empty /\ fetched = 0 /\ reported = 0 /\ sfheld = FALSE
     /\ last = [ev |-> "Init"]
-    /\ hls = {} /\ lks = {} /\ seen = {} /\ dg = "" /\ sz = 0 /\ fe = 0 /\ base = 0
+    /\ hls = {} /\ lks = {} /\ seen = {} /\ dg = "" /\ sz = 0 /\ fe = 0 /\ rep = "" /\ base = 0
 
 MonNext ==
     /\ l <= Len(TraceLog)
     /\ l' = l + 1
     /\ last' = Ev
-    /\ UNCHANGED <<cached, ents, mem, fetched, reported>>
+    /\ UNCHANGED <<cached, ents, mem, fetched, reported, sfheld>>
     /\ IF Ev.ev = "Reset"
        THEN /\ isRoot' = Ev.root /\ mode' = Ev.mode /\ src' = SeqToSet(Ev.src)
-            /\ hls' = {} /\ lks' = {} /\ seen' = {} /\ dg' = Ev.digest /\ sz' = Ev.size /\ fe' = 0 /\ base' = Ev.base
+            /\ hls' = {} /\ lks' = {} /\ seen' = {} /\ dg' = Ev.digest /\ sz' = Ev.size /\ fe' = 0 /\ rep' = "" /\ base' = Ev.base
        ELSE /\ UNCHANGED <<isRoot, mode, src, dg, sz, base>>
             /\ hls' = IF Ev.ev = "Readdir" /\ Ev.errno = "OK" THEN hls \cup {ListOf(Ev)} ELSE hls
             /\ lks' = IF Ev.ev = "Lookup"
@@ -45,6 +46,7 @@ MonNext ==
                       ELSE lks
             /\ seen' = seen \cup InoRecs(Ev)
             /\ fe' = IF Ev.ev = "Progress" THEN fe + 1 ELSE fe
+            /\ rep' = IF Ev.ev = "Report" THEN Ev.text ELSE rep
 
 MonSpec == MonInit /\ [][MonNext]_mvars
 
@@ -79,7 +81,9 @@ MonOpaqueXattr ==
     /\ last.ev = "Getxattr" => GetxattrOK(last, src, mode)
     /\ last.ev = "Listxattr" => (last.errno = "OK" /\ ListxattrOK([keys |-> SeqToSet(last.keys)], src, mode))
 MonStateFileJSON ==
-    last.ev = "StatRead" => StatOK(last, dg, sz, fe)
+    \* fe = number of Progress steps so far = the blob's CURRENT fetched size; rep = the LAST reported error
+    /\ last.ev = "StatRead" => StatOK(last, dg, sz, fe, rep)
+    /\ last.ev = "StatLookup" => StatNameOK(last, dg)
 MonStateDirHidden ==
     /\ (last.ev = "Readdir" /\ StateDir \notin src) => StateDir \notin NamesOf(ListOf(last))
     /\ (last.ev = "Lookup" /\ last.n = StateDir /\ isRoot) => (last.errno = "OK" /\ last.kind = "dir")
